@@ -188,6 +188,9 @@ func propC01(c *Ctx) {
 	c.NotDecided = append(c.NotDecided, "the numeric balance equation over histories: it follows from the clauses above under A2 (atomic messages) and A4 (bank keeper moves exactly the stated coins) and is not computed here")
 	c.Assumptions = append(c.Assumptions, "A1", "A2", "A3", "A4", "A5 (BridgeAddress injective)", "A10")
 	eff := c.W.BuildEffects()
+	// per-bridge isolation of the claim records across a genesis export (a shared backing array
+	// would move one bridge's paid claims to another: a second payout from the first escrow)
+	defer exportFreshness(c, "C01.R9", "ophost")
 
 	c.Rule("C01.R1", func() {
 		o := c.Ob("C01.R1", "ophost fund-moving call sites = {InitiateTokenDeposit.SendCoins, FinalizeTokenWithdrawal.SendCoins, CreateBridge.FundCommunityPool}")
